@@ -41,6 +41,15 @@ def handle (ws : List String) : String :=
       match unhex hx >>= Sexp.parse with
       | some s => runPost s
       | none => "err bad-sexp"
+  | "rescale" :: rho :: frs =>
+      -- rescale_fractions on doubles: concentrations c_i = f_i * rho / sum f
+      (match parseFloat? rho, frs.mapM parseFloat? with
+       | some r, some fs => "ok " ++ " ".intercalate ((rescaleFractions fs r).map fun v => toString v.toBits)
+       | _, _ => "err bad-number")
+  | ["inline", hx] =>
+      match unhex hx >>= Sexp.parse with
+      | some s => runInline s
+      | none => "err bad-sexp"
   | ["complement", hx] =>
       match unhex hx >>= Sexp.parse with
       | some s => runComplement s
